@@ -304,12 +304,24 @@ class ParseContext:
     else:
       module = '.'.join([source.partial_path(), *inner_names])
 
+    name = fn_or_cls_name
+    import_source = self._import_source(source, attr_names)
     original = _inverse_lookup(fn_or_cls)
+    if original is not None:
+      # A re-registration (the class of a newly configured method) keeps the
+      # name it is already known under, whichever spelling reached it this time,
+      # so that bindings made through the earlier spelling stay attached.
+      name, module = original.name, original.module
+      import_source = original.import_source or import_source
+    elif inspect.isfunction(fn_or_cls) and inspect.isclass(path_attrs[-1]):
+      parent = _inverse_lookup(path_attrs[-1])
+      if parent is not None:  # A method of an already registered class.
+        module = parent.selector
     _make_configurable(
         fn_or_cls,
-        name=fn_or_cls_name,
+        name=name,
         module=module,
-        import_source=self._import_source(source, attr_names),
+        import_source=import_source,
         avoid_class_mutation=True)
     if original is not None:  # We've re-registered something...
       for reference in iterate_references(_CONFIG, to=original.wrapper):
